@@ -324,13 +324,14 @@ func checkC14(c *Ctx) {
 func checkC15(c *Ctx) {
 	c.R.Clauses = append(c.R.Clauses,
 		"N1: no wrapper/waiter built by a pure combinator is discarded", "U2: once-wrappers run the function only inside sync.Once.Do and read the result after it", "U3: Lock/WithLock wrappers call under the mutex",
-		"U6: PreHook/PostHook/Join/merge order", "U7: Signal/Launch waiters complete only after the background execution", "L1 for the limit/ttl closures")
-	c.R.NotCov = append(c.R.NotCov, "Limit(n)'s count", "Retry(n)'s attempt count and result", "TTL timing")
+		"U6: PreHook/PostHook/Join/merge order", "U7: Signal/Launch waiters complete only after the background execution", "U8: Retry's bounded attempt loop and per-attempt decision table", "L1 for the limit/ttl closures (incl. the premise of the lock-free fast path)")
+	c.R.NotCov = append(c.R.NotCov, "Limit(n)'s count as a number", "the values Retry returns", "TTL timing")
 	ruleN1(c, map[string]bool{"fun": true, "ft": true, "adt": true, "dt": true, "itertool": true, "erc": true}, 2)
 	ruleU2(c)
 	ruleU3(c)
 	ruleU6(c)
 	ruleU7(c)
+	ruleU8(c)
 	lockRules(c, map[string]bool{"fun.limitExec": true, "fun.ttlExec": true}, map[string]int{"L1": 2})
 }
 
